@@ -19,6 +19,7 @@ EXPLANATION = (
     "and csi_set_scroll (clamped, under top < bottom <= height); (4) grid shape: outside resize/reset every insert into a row or into the grid is paired with a pop of the same list "
     "in the same block (and vice versa), and whole-row stores are empty_line(); (5) PROG: every while loop of the emulator assigns its driving variable on every back edge."
     ' Added after seed round 3: (11) every path through push_cursor stores is_rotten_cursor; (12) the reverse and forward arms of linefeed test mirrored comparisons.'
+    ' Round 4: C15.4 follows locals bound to a grid row (`line = self.term[y]`); (13) every scroll decision of linefeed / push_cursor compares the row with the scroll-region margin.'
 )
 NOT_DECIDED = (
     "Index-bounds safety of every self.term[y][x] access (IndexError is outside the exception model; only the clamp discipline is decided), width normalisation of rows returned "
